@@ -66,3 +66,24 @@ PROPS["C01"] = dict(
         dict(name="generated", run="^TestAdmissionGenerated$", quick=40000, thorough=1600000, shards=16, timeout_thorough=3000),
     ],
 )
+
+PROPS["C02"] = dict(
+    pkg="c02", level="exploration",
+    technique="property-based testing (rapid) over a free-form argument grammar with recording writers; native fuzzing via rapid.MakeFuzz",
+    claim=("Generated calls (any entry point, any built-in severity, arbitrary message bytes, free-form argument lists with malformed "
+           "shapes) on generated logger configurations are executed against recording writers: the call must return, each writer "
+           "selected for the severity gets exactly one Write ending in a newline with identical bytes, all others nothing, and a "
+           "non-admitted call writes nothing. Exploration over sampled inputs."),
+    note="Termination disabled (LnoInterrupt). Values with user methods that panic, cyclic values and typed-nil Attr/error values are never generated (excluded by the statement). Blank messages are made of space, tab, CR, LF only.",
+    rule=("rapid draws a configuration (format, 10 flag toggles, logger level, root/child, logger attributes, 1-3 normal / 1-2 error / 0-2 "
+          "per-level recording writers) and a call (entry point able to carry a drawn built-in severity, message of any byte class, 0-90 "
+          "argument items from: key/value of every kind, Attr, typed constructors, dangling key, non-string in key position, Attrs, []Attr "
+          "with nil elements, groups nested to depth 6, empty groups/keys, error values; Println with no or a non-string first argument). "
+          "Non-trivial: the list has a malformed/structured element, >=34 args, a Println special form or a blank Print; distinct = "
+          "(format, entry kind, shape set, println mode, admitted, number of selected writers)."),
+    assumptions=["the destination set is computed with the C03 routing model (per-level > error-class > normal)"],
+    stages=[
+        dict(name="delivery", run="^TestDelivery$", quick=30000, thorough=1200000, shards=16, timeout_thorough=3000),
+        dict(name="fuzz", fuzz="FuzzDelivery", fuzztime=120),
+    ],
+)
